@@ -12,4 +12,4 @@ def generate_core(rng, tier):
 def generate(rng, tier):
     """the component-level cases, then the clause seen through the whole request/reply pipeline"""
     import pipeline, focus
-    return generate_core(rng, tier) + focus.rwout80_cases(rng, 300 if tier == 'thorough' else 24) + pipeline.guided_cases(rng, 300 if tier == 'thorough' else 20, __import__('C10').dup_history, 'dup') + pipeline.guided_cases(rng, 300 if tier == 'thorough' else 20, pipeline.exchange_history, 'xchg')
+    return generate_core(rng, tier) + focus.peer_type_reply_cases(rng, 80 if tier == 'thorough' else 8) + focus.rwout80_cases(rng, 300 if tier == 'thorough' else 24) + pipeline.guided_cases(rng, 300 if tier == 'thorough' else 20, __import__('C10').dup_history, 'dup') + pipeline.guided_cases(rng, 300 if tier == 'thorough' else 20, pipeline.exchange_history, 'xchg')
